@@ -15,6 +15,8 @@ class Gen:
 
     def nid(self, p='e'):
         self.n += 1
+        if p == 'e' and self.r.chance(0.06):
+            return '%s%d' % (self.r.choice(['gr\u00f6\u00dfe', 'b\u00e9', '\u03b1']), self.n)      # ids in other scripts
         return '%s%d' % (p, self.n)
 
     def num(self, lo=-20, hi=60):
